@@ -13,12 +13,12 @@ Cfg2b == << <<0, 2, 0>>, <<1, 2, 1>> >>
 Cfg3a == << <<1, 1, 1>>, <<2, 0, 2>>, <<1, 2, 1>> >>
 Cfg3b == << <<2, 1, 2>>, <<0, 0, 1>>, <<1, 0, 0>> >>
 Cfg2t == << <<1, 2, 1>>, <<2, 1, 2>> >>
-Cfg3q == << <<2, 0, 1>>, <<2, 1, 1>>, <<1, 1, 1>> >>
+Cfg3q == << <<1, 0, 1>>, <<1, 1, 1>>, <<0, 0, 1>> >>
 Cfg2q == << <<1, 1, 1>>, <<2, 0, 1>> >>
 
 \* partitions a lifecycler may be started for
 HomesAll2 == <<{1, 2}, {1, 2}>>
 HomesAll3 == <<{1, 2, 3}, {1, 2, 3}, {1, 2, 3}>>
 Homes2q   == <<{1}, {1, 2}>>
-Homes3r   == <<{1, 3}, {1}, {2}>>
+Homes3r   == <<{1}, {2}, {3}>>
 =============================================================================
